@@ -24,7 +24,9 @@ Item(k) ==
       \* "<vt>" "<nel>" "<ls>" stand for U+000B, U+0085, U+2028 (the harness substitutes them)
       [] k = "ffc"     -> <<"; comment with a form feed \f inside">>
       [] k = "vtstr"   -> <<".ascii 'a<vt>b' ; and <nel> <ls> in a comment">>
-PreKinds == {"blank", "comment", "eolc", "stmt", "label", "mlc", "mlc1", "block", "macro", "data", "scope", "tabs", "ffc", "vtstr"}
+      \* lines whose last character is the one-digit literal 0
+      [] k = "zeroend" -> <<"lda #0", ".db 1, 0", "zsym = 0">>
+PreKinds == {"blank", "comment", "eolc", "stmt", "label", "mlc", "mlc1", "block", "macro", "data", "scope", "tabs", "ffc", "vtstr", "zeroend"}
 
 \* fault statements: text, whether the error is lexical, offset of the offending character in the text
 Fault(k) ==
@@ -35,8 +37,10 @@ Fault(k) ==
       [] k = "bad_index"     -> [text |-> "lda 0x10,z", lexical |-> TRUE, off |-> 9]
       [] k = "unterminated"  -> [text |-> ".ascii 'abc", lexical |-> TRUE, off |-> 7]
       [] k = "unterminated_bs" -> [text |-> ".ascii 'abc\\", lexical |-> TRUE, off |-> 7]
+      \* a size suffix that is missing altogether: the offending character is the one after the dot (here the line end)
+      [] k = "empty_suffix"  -> [text |-> "lda.", lexical |-> TRUE, off |-> 4]
       [] k = "bad_width"     -> [text |-> "lda.l #0x123456", lexical |-> FALSE, off |-> 0]
-FaultKinds == {"undef_operand", "undef_nosfx", "undef_data", "bad_suffix", "bad_index", "unterminated", "unterminated_bs", "bad_width"}
+FaultKinds == {"undef_operand", "undef_nosfx", "undef_data", "bad_suffix", "bad_index", "unterminated", "unterminated_bs", "bad_width", "empty_suffix"}
 
 Spaces(n) == [j \in 1..n |-> " "]
 RECURSIVE Cat(_)
